@@ -648,7 +648,14 @@ def rule_rx_added_exit(prog: Program, report: Report, pid: str) -> None:
                 continue
             seen.add(t)
             if isinstance(st, ast.Raise):
-                continue  # an added refusal by exception is a stricter precondition, judged by RQ where it matters
+                # an added refusal: inputs the reviewed function accepted are now rejected (decoding / import /
+                # an edit is no longer total).  There is nothing to prove redundant about a raise.
+                par_ = parent_of(st)
+                if isinstance(par_, ast.If) and " ".join(src(par_.test).split()) not in tests_old:
+                    guards = sorted(v.guards(st, resolve=False))
+                    report.violate("RX-add", fn, st, f"added refusal `{t[:60]}`", f"every statement and test of the reviewed {fn.qual} is unchanged, and `{t[:60]}` was added under the new condition `{' '.join(src(par_.test).split())[:80]}`: inputs the reviewed function handled are now rejected", what="no refusal is added to an otherwise unchanged anchored function")
+                    flagged = True
+                continue
             from ..redundant import exit_is_redundant
 
             same_text = [x for x in stmts if " ".join(src(x).split()) == t]
@@ -663,3 +670,108 @@ def rule_rx_added_exit(prog: Program, report: Report, pid: str) -> None:
         if not flagged:
             report.ob("RX-add", key, "no exit was added to the reviewed statements")
     report.count("RX-add anchored functions compared with their reviewed statements", n)
+
+
+# ---------------------------------------------------------------------------- RK-const / RD-default
+def rule_rk_const(prog: Program, report: Report, pid: str) -> None:
+    """Module-level constants of the files a property's anchors name (token and whitespace patterns,
+    bit flags of the deletion / whitespace options, the 16-bit split of the recover encoding) keep the
+    value they had in the reviewed tree: several functions rely on each of them at once (the encoder
+    and the decoder of a recover value, the setter and the testers of an option bit), so no single
+    function's table can see a change to the constant itself."""
+    import json
+    import os
+
+    from ..gates import _REVIEWED, _reviewed  # noqa: F401
+    from ..gates import view  # noqa: F401
+    from .. import gates
+
+    report.rules.append("RK-const")
+    here = os.path.dirname(os.path.abspath(__file__))
+    files: set[str] = set()
+    for line in open(os.path.join(os.path.dirname(os.path.dirname(here)), "properties.jsonl"), encoding="utf-8"):
+        pr = json.loads(line)
+        if pr["id"] == pid:
+            files = set(pr.get("anchors", {}).get("files", []))
+    pth = os.path.join(os.path.dirname(os.path.dirname(here)), "selftest", "reviewed_shape.json")
+    if gates._REVIEWED is None:
+        gates._REVIEWED = json.load(open(pth)) if os.path.exists(pth) else {}
+    consts = (gates._REVIEWED or {}).get("<module constants>", {})
+    n = 0
+    for rel in sorted(files):
+        if rel not in consts or rel not in prog.modules:
+            continue
+        m = prog.modules[rel]
+        now: dict[str, ast.expr] = {}
+        for st in m.tree.body:
+            if isinstance(st, ast.Assign) and len(st.targets) == 1 and isinstance(st.targets[0], ast.Name):
+                now[st.targets[0].id] = st.value
+            elif isinstance(st, ast.AnnAssign) and isinstance(st.target, ast.Name) and st.value is not None:
+                now[st.target.id] = st.value
+        for name, old in sorted(consts[rel].items()):
+            if name not in now:
+                report.note(f"RK-const: {rel}: constant {name} of the reviewed tree is gone (renamed or inlined): not judged")
+                continue
+            n += 1
+            cur = " ".join(src(now[name]).split())
+            same = cur == old
+            if not same:
+                try:  # numerically equal spellings (`2 ** 16` / `65536` / `0x10000`)
+                    a, b = ast.literal_eval(cur), ast.literal_eval(old)
+                    same = a == b
+                except (ValueError, SyntaxError, TypeError):
+                    try:
+                        same = eval(compile(ast.parse(cur, mode="eval"), "<const>", "eval"), {"__builtins__": {}}) == eval(compile(ast.parse(old, mode="eval"), "<const>", "eval"), {"__builtins__": {}}) if all(isinstance(x, (ast.Expression, ast.BinOp, ast.UnaryOp, ast.Constant, ast.operator, ast.unaryop)) for t in (cur, old) for x in ast.walk(ast.parse(t, mode="eval"))) else False
+                    except Exception:
+                        same = False
+            if same:
+                report.ob("RK-const", rel, f"{name} = {old[:50]}")
+            else:
+                report.violate("RK-const", f"{rel}::<module>", now[name], f"{name} = {cur[:60]}", f"the module constant {name} was `{old[:80]}` in the reviewed tree and is `{cur[:80]}` now; every function that encodes, decodes or tests values with it changes meaning together", what=f"{name} keeps its reviewed value")
+    report.count("RK-const module constants compared", n)
+
+
+def rule_rd_default(prog: Program, report: Report, pid: str) -> None:
+    """A parameter that the reviewed function defaults in place (`if to is None: to = self.size`) is
+    still defaulted by the same expression, whatever statement form the defaulting takes."""
+    import json
+    import os
+
+    from ..gates import _reviewed, view
+    from ..norm import Resolver
+    from .rn import canon
+
+    report.rules.append("RD-default")
+    here = os.path.dirname(os.path.abspath(__file__))
+    files: set[str] = set()
+    for line in open(os.path.join(os.path.dirname(os.path.dirname(here)), "properties.jsonl"), encoding="utf-8"):
+        pr = json.loads(line)
+        if pr["id"] == pid:
+            files = set(pr.get("anchors", {}).get("files", []))
+    n = 0
+    for key, fn in sorted(prog.funcs.items()):
+        if fn.module.rel not in files:
+            continue
+        v = view(prog, key)
+        rv = _reviewed(v)
+        if rv is None:
+            continue
+        for p_, d in sorted(rv.get("defs", {}).items()):
+            if p_ not in fn.params():
+                continue
+            try:
+                old = ast.parse(d, mode="eval").body
+            except SyntaxError:
+                continue
+            if not any(isinstance(x, ast.Name) and x.id == p_ for x in ast.walk(old)):
+                continue  # not a self-referential default
+            cur = v.res.defs.get(p_)
+            if cur is None:
+                continue  # no longer re-bound in a recognised form (a new local may carry the default): not judged
+            n += 1
+            sk = frozenset({p_})
+            if canon(cur) == canon(old) or canon(v.res.expr(cur, 8, sk)) == canon(v.res.expr(old, 8, sk)):
+                report.ob("RD-default", key, f"parameter `{p_}` is defaulted as in the reviewed tree: {d[:60]}")
+            else:
+                report.violate("RD-default", fn, cur, f"`{p_}` defaulted as `{' '.join(src(cur).split())[:70]}`", f"the reviewed {fn.qual} defaults its parameter `{p_}` with `{d[:80]}`; now it is `{' '.join(src(cur).split())[:80]}` - an explicitly passed value or the absent case is treated differently", what=f"parameter {p_} keeps its reviewed default")
+    report.count("RD-default defaulted parameters compared", n)
